@@ -1896,6 +1896,19 @@ class Interp:
         key = (fv._relpath, fv._qualname)
         summ = self.summaries.get(key)
         if summ is not None and not getattr(self, "_inside_summary", None) == key:
+            # a summary sees the call the way the callee would: keyword arguments that name leading parameters are
+            # moved to their positions (f(a, b=x) and f(a, x) are the same call)
+            # (f(a, b=x) and f(a, x) are the same call): `args` is the longest positional prefix that can be formed,
+            # `kwargs` names EVERY supplied argument - a summary may use either, whichever way the call was written
+            if fv.node.args.vararg is None:
+                params = [p.arg for p in fv.node.args.posonlyargs + fv.node.args.args]
+                if len(args) <= len(params):
+                    named = dict(zip(params, args))
+                    named.update(kwargs)
+                    args = list(args)
+                    while len(args) < len(params) and params[len(args)] in kwargs:
+                        args.append(kwargs[params[len(args)]])
+                    kwargs = named
             return summ(self, self.ctx, fv, args, kwargs)
         env = Env(fv.env, fv.module, func=fv)
         self.bind_args(fv, env, args, kwargs)
